@@ -17,7 +17,7 @@ MANIFEST = dict(
          "file is decoded in order and that the backward scan of the MT reader finds the members in file order. Each behaviour is "
          "replayed into the real readers with streams produced by the crate's writers, liblzma and the forge; the property oracle "
          "(decoded bytes = concatenation / error / first stream only) decides, the model's predicted outcome and byte count must also "
-         "match, and the reader model is run by TLC over the strict-parser records of the real inputs (trace validation).",
+         "match, and the reader model is run by TLC over the strict-parser records of the real inputs (trace validation). Beyond the model's bound on the number of units, the real readers are run over inputs of 3 000 - 40 001 members / streams (empty, tiny, data in front / middle / end), one process each under a 1 MiB stack; a dead process is a violation.",
     ref="4.8, 6/C12",
     note="TLC results hold for <= 3 streams / files and the stated padding values; padding after the last stream is judged like padding "
          "between streams (must be a multiple of four); trailing non-stream bytes in multi-stream mode are predicted by the model "
